@@ -43,7 +43,7 @@ _TAGS = {
     "un", "bin", "nary", "tern", "suffix", "seq", "if", "cond", "while", "for", "break", "continue", "assert", "return",
     "approve", "reject", "err", "pop", "log", "store", "gput", "gdel", "gget", "lput", "ldel", "lget", "maybe", "optedin",
     "balance", "minbalance", "call", "callN", "itxn", "comment", "index", "wideratio", "boxput", "boxdel", "dsetidx",
-    "dload", "dstore", "nop", "b16", "b32", "b64", "msig", "tmpli", "tmplb", "tmpla", "optedin", "gget",
+    "dload", "dstore", "nop", "b16", "b32", "b64", "msig", "tmpli", "tmplb", "tmpla", "pragma", "optedin", "gget",
 }
 
 
